@@ -172,5 +172,11 @@ theorem slash_callback_touches_only_pending_redelegation_destinations (v : ValId
     (h : step (.slash v f) w = (.ok (), w')) :
     ∀ k, k ∉ redelTargets w v → delShares w' k = delShares w k := beforeValidatorSlashed_scoped v f w w' hk h
 
+
+/-- … in every state of every history, with no hypothesis on the state -/
+theorem slash_callback_scope_everywhere (w0 w w' : World) (hr : ReachG (clearModuleStore w0) w) (v : ValId) (f : Dec)
+    (h : step (.slash v f) w = (.ok (), w')) : ∀ k, k ∉ redelTargets w v → delShares w' k = delShares w k :=
+  slash_scope_in_every_history w0 w w' hr v f h
+
 end C07
 end Alliance
